@@ -19,6 +19,9 @@ var externs = map[string]externFn{}
 var externWrites = map[string][]string{}
 var externDoc = map[string]string{}
 
+// externFreshOnly["fn|comp"]: the extern writes this component only at objects it allocates itself
+var externFreshOnly = map[string]bool{}
+
 type prefixExtern struct {
 	prefix string
 	h      externFn
@@ -143,13 +146,14 @@ func init() {
 				c := st.comp(name, ArrSort(BV64, ArrSort(BV64, StrSort)))
 				rest := Fresh("split.chars", ArrSort(BV64, StrSort))
 				j := Bound("j", BV64)
-				ex.assume(pc, Forall([]*Term{j}, Implies(And(SLe(C64(0), j), SLt(j, n)), Eq(App("str.len", BV64, Select(rest, j)), C64(1))), []*Term{Select(rest, j)}))
+				ex.assume(pc, Forall([]*Term{j}, Implies(And(SLe(C64(0), j), SLt(j, n)), Eq(App("gostr.len", BV64, Select(rest, j)), C64(1))), []*Term{Select(rest, j)}))
 				st.setComp(name, Store(c, sl.Arr, rest))
 			}
 		}
 		return sl, pc
 	})
 	externWrites["strings.Split"] = []string{"next", eCompName(types.Typ[types.String], 0)}
+	externFreshOnly["strings.Split|"+eCompName(types.Typ[types.String], 0)] = true
 	compSorts[eCompName(types.Typ[types.String], 0)] = ArrSort(BV64, ArrSort(BV64, StrSort))
 	regPrefix("strings.", "other strings functions: opaque results", pureOpaque)
 	regPrefix("strconv.", "strconv: opaque results (specific functions modelled separately)", pureOpaque)
